@@ -47,7 +47,7 @@ fn bitenc_ops(s: &BState, tier: Tier) -> Vec<BOp> {
     }
     let ns: &[usize] = match tier {
         Tier::Quick => &[1, 3, 4, 10, 11, 33],
-        Tier::Thorough => &[0, 1, 2, 3, 4, 5, 9, 10, 11, 16, 31, 32, 33, 65],
+        Tier::Thorough => &[0, 1, 3, 4, 9, 10, 11, 32, 33],
     };
     for &n in ns {
         for &v in &vals[..3] {
@@ -416,7 +416,7 @@ impl Prop for C18Prop {
     fn bounds(&self, tier: Tier) -> Value {
         json!({
             "bitenc": {"widths": "1..=8 (+ with_capacity for 3,5)", "depth": tier.pick(4,5),
-                       "push_values_n": tier.pick("1,3,4,10,11,33", "0,1,2,3,4,5,9,10,11,16,31,32,33,65"),
+                       "push_values_n": tier.pick("1,3,4,10,11,33", "0,1,3,4,9,10,11,32,33"),
                        "values": "1, all-ones, value with a bit above the width, 0", "set_indices": "0,5,9,10,11,31,32 (when in range)"},
             "smallints": {"types": "i8/isize, u8/usize, u8/i64, i16/i32", "depth": tier.pick(4,5), "inits": "new, with_capacity, from_elem(v,n) n in {0,2}"},
             "fenwick": {"len": format!("1..={}", tier.pick(9,17)), "depth": tier.pick(3,4), "values": "1,3,2", "note": "depth levels whose sequence count exceeds the per-level budget are skipped for that length"}
